@@ -14,7 +14,8 @@ every level; the scope of an assignment is a function of its own prefix and the 
   assignments to any targets, reads anywhere, a stray `}` included): `M` and `S` produce the same
   outputs. `vm_simulation` is the state-level form, `vm_total` says that no `unwrap` of
   `VM::end_group` fails and no `\global` is rejected.
-* `close_restores`, `global_survives` (+ `assigned_value`, `selected_font`), `global_one_shot` —
+* `close_restores`, `close_restores_plain`, `global_survives` (+ `assigned_value`, `selected_font`),
+  `global_one_shot` —
   the property in its own words.
 * `prefix_a/b/c_violates` — the transcription of the code *before* each repair violates the
   refinement at the recorded witness (findings C01-a, C01-b, C01-c).
@@ -54,6 +55,17 @@ theorem close_restores (hist blk : List Op) (t : Target)
     valOf (run .fixed VMState.init (hist ++ .beginGroup :: (blk ++ [.endGroup]))).1 t =
       valOf (run .fixed VMState.init hist).1 t :=
   C01.close_restores_M hist blk t hnf hb ht
+
+/-- The same with purely syntactic hypotheses: if `\globaldefs` is never assigned and `blk` is
+well bracketed and written without `\global` and `\gdef`, then **every** target — whatever was
+assigned inside, at whatever depth — has after `{ blk }` the value it had before. -/
+theorem close_restores_plain (hist blk : List Op) (t : Target)
+    (hnf : ∀ o ∈ (run .fixed VMState.init hist).2, o.fatal = false)
+    (hh : ∀ op ∈ hist, op.noGlobaldefs = true)
+    (hb : Bal blk) (hp : ∀ op ∈ blk, op.plain = true) :
+    valOf (run .fixed VMState.init (hist ++ .beginGroup :: (blk ++ [.endGroup]))).1 t =
+      valOf (run .fixed VMState.init hist).1 t :=
+  C01.close_restores_plain_M hist blk t hnf hh hb hp
 
 /-- **A global assignment survives however many groups were open.** If `op` assigns `t` globally
 after `hist` (at any depth), then closing any number `k` of the open groups succeeds and `t` still
@@ -116,6 +128,11 @@ example :
     valOf (run .fixed VMState.init ([.assign 0 ⟨.count, 1⟩ 1] ++ .beginGroup ::
       ([.assign 0 ⟨.count, 1⟩ 2, .beginGroup, .assign 1 ⟨.count, 2⟩ 3, .endGroup] ++ [.endGroup]))).1
       (.var ⟨.count, 1⟩) = .v (some 1) := by decide
+
+-- hypotheses of `close_restores_plain`
+example : ∀ op ∈ [Op.assign 0 ⟨.count, 1⟩ 1, .define 1 (.act 0) (.mac 3)], op.noGlobaldefs = true := by decide
+example : ∀ op ∈ [Op.assign 0 ⟨.count, 1⟩ 2, .beginGroup, .define 0 (.act 0) (.chr 65), .selectFont 0 2,
+    .endGroup, .read .font], op.plain = true := by decide
 
 -- hypotheses of `global_survives` (and `assigned_value`): `\global\count1=3` at depth 2 after a
 -- local assignment, k = 2
